@@ -268,3 +268,42 @@ def standard_run(out, prop, n_quick, want, verdict, **kw):
                         "that on each explored input the current code's output carries a kernel-checked certificate",
                         "termination is observed under a 90 s limit per learner call, not proved"]
     return items, certs
+
+
+# ----------------------------------------------------------------------------- equivalence of two emitted texts (C14)
+
+def coq_equiv(pairs):
+    """pairs: list of (tokensA, tokensB). Returns list of dict(a_ok, b_ok, same_events, e1, e1u, e2, e2u) (None on failure)."""
+    files = []
+    shard = max(1, len(pairs) // common.NPROC + 1)
+    for s in range(0, len(pairs), shard):
+        rows = []
+        for i in range(s, min(len(pairs), s + shard)):
+            inter = P.Interner()
+            ta, tb = pairs[i]
+            rows.append(f"({i}%nat, {P.coq_tokens(ta, inter)}, {P.coq_tokens(tb, inter)})")
+        body = ";\n ".join(rows)
+        files.append((f"E{s}", f"""From Coq Require Import List PArith Bool Arith. Import ListNotations.
+From V Require Import Puml.Ast Puml.Exec Puml.Canon Puml.Accept Puml.Syntax Puml.Parse Puml.Check.
+Open Scope positive_scope.
+Definition b2n (b : bool) : nat := if b then 1%nat else 0%nat.
+Definition okp (ts : list token) := match parse ts with Some _ => true | None => false end.
+Definition cases : list (nat * list token * list token) := [
+ {body}].
+Definition run (c : nat * list token * list token) :=
+  let '(i, ta, tb) := c in
+  let a := parsed ta in let b := parsed tb in
+  let e1 := incl_adaptive {KMAX} {CAP} 2 a b in
+  let e2 := incl_adaptive {KMAX} {CAP} 2 b a in
+  (i, [b2n (okp ta); b2n (okp tb); b2n (same_events (events_of a) (events_of b))], fst e1, snd e1, fst e2, snd e2).
+Eval vm_compute in map run cases.
+"""))
+    res = common.coq_eval_many(files, timeout=1500)
+    out = [None] * len(pairs)
+    for (name, _), (okc, o) in zip(files, res):
+        parsed = _parse_rows(o) if okc else None
+        if parsed is None:
+            continue
+        for i, flags, e1, e1u, e2, e2u in parsed:
+            out[i] = dict(a_ok=bool(flags[0]), b_ok=bool(flags[1]), same_events=bool(flags[2]), e1=e1, e1u=e1u, e2=e2, e2u=e2u)
+    return out
